@@ -96,6 +96,30 @@ func run(t *rapid.T, test string, wl workload) {
 	sharedExp := sharedGroupExp()
 	shared := vlib.AttrsOf([]vlib.ExpAttr{sharedExp})[0]
 
+	// the members of the shared value as the callers see them: logging must never write to them
+	memberKeys := func() string {
+		var walk func(a slog.Attr, sb *strings.Builder)
+		walk = func(a slog.Attr, sb *strings.Builder) {
+			if a == nil {
+				sb.WriteString("<nil>;")
+				return
+			}
+			sb.WriteString(a.Key())
+			if items, ok := a.Value().(slog.Attrs); ok {
+				sb.WriteString("{")
+				for _, m := range items {
+					walk(m, sb)
+				}
+				sb.WriteString("}")
+			}
+			sb.WriteString(";")
+		}
+		var sb strings.Builder
+		walk(shared, &sb)
+		return sb.String()
+	}
+	sharedBefore := memberKeys()
+
 	loggers := make([]slog.Logger, len(wl.Loggers))
 	own := make([][]vlib.ExpAttr, len(wl.Loggers))
 	names := make([]string, len(wl.Loggers))
@@ -212,6 +236,10 @@ func run(t *rapid.T, test string, wl workload) {
 	close(panics)
 	for p := range panics {
 		t.Fatalf("C08 %v: %s", wl, p)
+	}
+
+	if after := memberKeys(); after != sharedBefore {
+		t.Fatalf("C08 %v: logging wrote to the Group value shared by the callers (a data race whenever two goroutines log it): members were %s, now %s", wl, sharedBefore, after)
 	}
 
 	// every payload is the complete record of exactly one call
